@@ -32,8 +32,11 @@ namespace fastscapelib
             m_pause_jobs[i] = [this, i]()
             {
                 std::unique_lock<std::mutex> lk(m_cv_m);
+                FASTSCAPELIB_VERIF_SCHED("pausejob.locked", i);
                 ++m_paused_count;
+                FASTSCAPELIB_VERIF_SCHED("pausejob.counted", i);
                 m_cv.wait(lk);
+                FASTSCAPELIB_VERIF_SCHED("pausejob.woken", i);
                 --m_paused_count;
             };
     }
@@ -60,7 +63,11 @@ namespace fastscapelib
 
         for (std::size_t i = 0; i < m_size; ++i)
             if ((*p_jobs)[i] != nullptr)
+            {
+                FASTSCAPELIB_VERIF_SCHED("run_tasks.before_publish", i);
                 m_has_job[i].store(1, std::memory_order_relaxed);
+                FASTSCAPELIB_VERIF_SCHED("run_tasks.after_publish", i);
+            }
     }
 
     /////////////////////////////////////////////////////////////////////////////////////////
@@ -77,6 +84,7 @@ namespace fastscapelib
 
             while (m_paused_count != m_size)
             {
+                FASTSCAPELIB_VERIF_SCHED("pause.spin", m_size);
             }
         }
     }
@@ -88,7 +96,9 @@ namespace fastscapelib
     {
         if (m_paused)
         {
+            FASTSCAPELIB_VERIF_SCHED("resume.before_notify", m_size);
             m_cv.notify_all();
+            FASTSCAPELIB_VERIF_SCHED("resume.after_notify", m_size);
             m_paused = false;
             wait();
         }
@@ -122,6 +132,7 @@ namespace fastscapelib
     {
         while (!was_empty())
         {
+            FASTSCAPELIB_VERIF_SCHED("wait.spin", m_size);
         }
     }
 
@@ -137,8 +148,10 @@ namespace fastscapelib
             if (m_paused)
                 resume();
 
+            FASTSCAPELIB_VERIF_SCHED("stop.before_join", m_size);
             for (std::thread& worker : m_workers)
                 worker.join();
+            FASTSCAPELIB_VERIF_SCHED("stop.after_join", m_size);
         }
     }
 
@@ -176,8 +189,11 @@ namespace fastscapelib
                         {
                             if (m_has_job[i].load(std::memory_order_relaxed))
                             {
+                                FASTSCAPELIB_VERIF_SCHED("worker.saw_job", i);
                                 (*p_jobs)[i]();
+                                FASTSCAPELIB_VERIF_SCHED("worker.job_done.before_clear", i);
                                 m_has_job[i].store(0, std::memory_order_relaxed);
+                                FASTSCAPELIB_VERIF_SCHED("worker.job_done.after_clear", i);
                             }
                         }
                     });
@@ -200,6 +216,7 @@ namespace fastscapelib
     {
         if (size != m_size)
         {
+            FASTSCAPELIB_VERIF_SCHED("resize.begin", size);
             m_size = size;
             stop();
             m_stopped = false;
@@ -208,6 +225,7 @@ namespace fastscapelib
             m_has_job = std::vector<std::atomic<std::uint8_t>>(size);
             init_pause_jobs();
             m_started = false;
+            FASTSCAPELIB_VERIF_SCHED("resize.end", size);
         }
     }
 
@@ -222,6 +240,7 @@ namespace fastscapelib
     {
         std::vector<std::function<void()>> p_jobs(m_size);
 
+        FASTSCAPELIB_VERIF_SCHED("run_blocks.begin", m_size);
         if (index_after_last > first_index)
         {
             const blocks blks(first_index, index_after_last, m_size, min_size);
@@ -241,6 +260,7 @@ namespace fastscapelib
 
             wait();
         };
+        FASTSCAPELIB_VERIF_SCHED("run_blocks.end", m_size);
     }
 
     /////////////////////////////////////////////////////////////////////////////////////////
